@@ -30,15 +30,19 @@ var vC07Progs = []string{
 	"3c2",
 	"i = 0; while i < 100000 { i = i + 1; [1,2,3].sum() }",
 	"`{% i = 0; while 1 { i = i + 1 } %}`",
+	"9223372036854775807d6",
+	"9223372036854775800d6 + 9223372036854775800d6",
+	"b9223372036854775807",
+	"&v1 = 5000d1; func fn1() { v1 }; i = 0; while i < 100 { fn1(); i = i + 1 }",
 }
 
-//vh:prop=C07 tiers=quick,thorough sigkeys=prog,dicemode summaries=Roll:roll-log maxsteps=120000000 hang_is_violation=1 budget_s=1500 bounds="17 adversarial programs (endless loops, unbounded and exponential recursion, self-referential computed value, huge dice counts, doubling arrays and strings, huge range, exploding WoD / Double Cross pools) under op budgets {200, 30000} and dice modes {random with low faces, min, max}: evaluation must end within 120M interpreter steps, and when it ends without error the counter is within the budget and the work done (interpreter steps + bytes copied) is at most 6000 x budget + 3M"
+//vh:prop=C07 tiers=quick,thorough sigkeys=prog,dicemode summaries=Roll:roll-log maxsteps=120000000 hang_is_violation=1 budget_s=1500 bounds="21 adversarial programs (endless loops, unbounded and exponential recursion, self-referential computed value, huge dice counts incl. counts that overflow the counter, a function that reads a costly computed value in a loop, doubling arrays and strings, huge range, exploding WoD / Double Cross pools) under op budgets {200, 30000} and dice modes {random with low faces, min, max}: evaluation must end within 120M interpreter steps (else: hang, confirmed natively with a timeout); when it ends without error the counter and the number of dice rolled are within the budget, and with an error the dice rolled exceed the budget by at most one batch"
 func VH_C07_budget() {
 	k := vParam("prog", -1)
 	if k < 0 {
 		k = vChoice("prog", len(vC07Progs))
 	}
-	vm := vNewVM()
+	vm := vSeededVM()
 	budget := []IntType{200, 30000}[vChoice("budget", 2)]
 	vm.Config.OpCountLimit = budget
 	switch vChoice("dicemode", 3) {
@@ -47,15 +51,17 @@ func VH_C07_budget() {
 	case 2:
 		vm.Config.DiceMaxMode = true
 	}
-	w0 := vWork()
 	err := vm.Run(vC07Progs[k])
-	work := vWork() - w0
 	vReach("returned")
 	if err == nil {
 		vAssert(vm.NumOpCount <= budget, "no-error-implies-counter-within-budget")
-	}
-	if vSymbolic() {
-		vAssert(work <= 6000*int64(budget)+3000000, "work-proportional-to-budget")
+		// every die costs at least one unit: a run that stayed within the
+		// budget cannot have rolled more dice than the budget
+		vAssert(vDrawCount() <= int(budget), "no-error-implies-dice-rolled-within-budget")
+	} else {
+		// the run is stopped soon after the budget is exhausted: a single
+		// instruction may roll at most one batch (<= 20000 dice) beyond it
+		vAssert(vDrawCount() <= int(budget)+20000+1, "dice-rolled-bounded-by-budget")
 	}
 }
 
